@@ -48,21 +48,22 @@ func main() {
 }
 
 type tcase struct {
-	K       string   `json:"k"`
-	Vt      string   `json:"vt"`
-	Op      string   `json:"op"`
-	L       string   `json:"l"`
-	Rt      string   `json:"rt"`
-	R       string   `json:"r"`
-	Form    string   `json:"form"`
-	Fn      string   `json:"fn"`
-	Scope   string   `json:"scope"`
-	Ret     string   `json:"ret"`
-	Types   []string `json:"types"`
-	Classes []int    `json:"classes"`
-	Edges   [][2]int `json:"edges"`
-	NReq    int      `json:"nreq"`
-	Cyclic  bool     `json:"cyclic"`
+	K          string   `json:"k"`
+	Vt         string   `json:"vt"`
+	Op         string   `json:"op"`
+	L          string   `json:"l"`
+	Rt         string   `json:"rt"`
+	R          string   `json:"r"`
+	Form       string   `json:"form"`
+	Fn         string   `json:"fn"`
+	Scope      string   `json:"scope"`
+	Ret        string   `json:"ret"`
+	Types      []string `json:"types"`
+	Classes    []int    `json:"classes"`
+	Edges      [][2]int `json:"edges"`
+	NReq       int      `json:"nreq"`
+	Cyclic     bool     `json:"cyclic"`
+	Functional bool     `json:"functional"`
 	// lifecycle histories emitted by spec/LifecycleTotal.tla (same shape as Lifecycle.tla behaviours)
 	Reqs []lcReq `json:"reqs"`
 	// request family: classes of method / path / query / headers and the program that inspects them
@@ -250,6 +251,19 @@ func builtinText(c *tcase) (stmt string, ok bool) {
 
 func callsVCL(c *tcase) string {
 	var sb strings.Builder
+	if c.Functional {
+		sb.WriteString("sub vcl_recv {\n  set req.http.R = s1();\n  error 600;\n}\nsub vcl_error {\n  return (deliver);\n}\n")
+		for n := 1; n <= 3; n++ {
+			fmt.Fprintf(&sb, "sub s%d STRING {\n  declare local var.x STRING;\n  set req.http.Depth = req.http.Depth \"%d\";\n", n, n)
+			for _, e := range c.Edges {
+				if e[0] == n {
+					fmt.Fprintf(&sb, "  set var.x = s%d();\n", e[1])
+				}
+			}
+			fmt.Fprintf(&sb, "  return \"%d\";\n}\n", n)
+		}
+		return sb.String()
+	}
 	sb.WriteString("sub vcl_recv {\n  call s1;\n  error 600;\n}\nsub vcl_error {\n  return (deliver);\n}\n")
 	for n := 1; n <= 3; n++ {
 		fmt.Fprintf(&sb, "sub s%d {\n  set req.http.Depth = req.http.Depth \"%d\";\n", n, n)
